@@ -8,6 +8,7 @@ def run(tier, seed):
     from ..propbase import deductive
     import contracts.inline as CI
     deductive(rep, "C09", CI.C09_FUNCS, "contracts.inline")
+    deductive(rep, "C09", ["markdown_it.helpers.parse_link_title.parseLinkTitle"], "contracts.helpers")
     from .. import reads
     reads.add_order_obligations(rep, "C09")
     gen_universe(rep, "vf.oracles2:c09_literal", "vf.oracles2:gen_c09", tier, "MarkdownIt.render", "esc(t) and charref(t) render as the literal, HTML-escaped t in 7 inline contexts",
